@@ -70,7 +70,7 @@ class ZooH(H):
 
 
 def quick_stacks(seed):
-    stacks, missing = stackgen.cover(seed, budget=70, min_stacks=48)
+    stacks, missing = stackgen.cover(seed, budget=100, min_stacks=48)
     return stacks, missing
 
 
